@@ -47,7 +47,8 @@ def structured(r):
     for _ in range(n):
         f, v = r.choice(G.FEATURES + [("color", "2"), ("min-width", "1.5em"), ("device-aspect-ratio", None), ("min-width", "0.0000001px"), ("max-width", "1.23456789px"), ("color", "RGB(1, 2, 3)"), ("min-height", "2.99999999em"), ("a", "x\\2c y"), ("b\\3a c", "1")])
         parts.append(f"({f}: {v})" if v else f"({f})")
-    return " and ".join(parts)
+    # (the keyword in any letter case, with or without white space in front of the bracket)
+    return parts[0] + "".join(r.choice([" and ", " and ", " AND ", " And ", " and", " AND", " And"]) + p_ for p_ in parts[1:])
 
 
 def ref_simple(text):
@@ -363,7 +364,7 @@ class World:
         return (self.cfg["owner"], tuple(t or "Q" for _, t in self.model))
 
 
-BAD_Q = ["print and", "screen and (x", "3d", "(", "and", "print screen", "not", "tv and and (color)", "x-unknown", "print and (color", "only", "(color) and"]
+BAD_Q = ["screen and (color: rgb())", "tv and (color: hsl(120))", "(x: rgba(255))", "print and (min-width: )", "print and", "screen and (x", "3d", "(", "and", "print screen", "not", "tv and and (color)", "x-unknown", "print and (color", "only", "(color) and"]
 
 
 def gen_q(r, bad):
